@@ -256,6 +256,13 @@ Theorem typst_value_injective_rust_debug : forall esc,
 Proof. exact typst_value_injective_debug. Qed.
 Print Assumptions typst_value_injective_rust_debug.
 
+(* the hypothesis on the escape table is the boolean [esc_covers_ws] that the runner evaluates, on every
+   run, on the table dumped from std (case TyWsTable of Run/TypstRun.v) *)
+Theorem debug_table_condition : forall esc, esc_covers_ws esc = true ->
+  forall c, is_ws c = true -> c = 32 \/ c = 9 \/ c = 10 \/ c = 13 \/ esc c = true.
+Proof. exact esc_covers_ws_spec. Qed.
+Print Assumptions debug_table_condition.
+
 (* the hypotheses on the float printer are satisfiable, and the model runs on a task *)
 Example typst_value_example :
   typst_narsese Z fshow01 dbg0 (NTask (SJudgement (TName Word [65]) (TruthDouble 1%Z 0%Z) (Fixed (-5)), BudgetSingle 0%Z)) =
